@@ -652,7 +652,19 @@ def layout_case(rnd: random.Random, idx: int, stats: dict, invalid: str | None =
     placement: list[str] = ["plain"]
     variants: dict[int, list[str]] = {}      # lookup-placed file -> lookup dirs holding a variant
     lookup_name: dict[int, str] = {}
+    # "twins": two different files that are imported with the SAME relative spelling from files of different directories
+    # (main imports ./same.exps of its own directory; a file of another directory imports ./same.exps of that directory):
+    # an import means the file it names relative to the file it is written in
+    twin = invalid is None and rnd.random() < 0.3
+    if twin:
+        nf = max(nf, 3)
+        twin_dir = rnd.choice([d for d in PLAIN_DIRS if d != posixpath.dirname(main)])
     for j in range(1, nf + 1):
+        if twin and j <= 3:
+            placement.append("plain")
+            paths.append({1: posixpath.join(posixpath.dirname(main), "same.exps"), 2: posixpath.join(twin_dir, "f2.exps"),
+                          3: posixpath.join(twin_dir, "same.exps")}[j])
+            continue
         if rnd.random() < 0.45 or invalid in ("dot_component", "lookup_empty", "dir_candidate") and j == 1:
             placement.append("lookup")
             nm = rnd.choice([f"f{j}.exps", f"pkg/f{j}.exps", f"pkg/deep/f{j}.exps"])
@@ -683,6 +695,14 @@ def layout_case(rnd: random.Random, idx: int, stats: dict, invalid: str | None =
         importers = [i for i in range(j) if rnd.random() < 0.5] or [rnd.randrange(j)]
         for i in importers:
             imports[i].append(j)
+    forced_rel: set = set()
+    if twin:
+        hit("twin_relative_imports")
+        # main imports file 1 (its neighbour) and file 2; file 2 imports file 3 (its neighbour, named like file 1)
+        for i, j in ((0, 1), (0, 2), (2, 3)):
+            if j not in imports[i]:
+                imports[i].append(j)
+        forced_rel = {(0, 1), (2, 3)}
     for i in imports:
         rnd.shuffle(imports[i])
     nimporters = {j: sum(1 for i in imports if j in imports[i]) for j in range(1, nf + 1)}
@@ -724,6 +744,9 @@ def layout_case(rnd: random.Random, idx: int, stats: dict, invalid: str | None =
     style_count: dict[str, int] = {}
 
     def import_string(i: int, j: int) -> str:
+        if (i, j) in forced_rel:
+            style_count["relative"] = style_count.get("relative", 0) + 1
+            return "./same.exps"
         if placement[j] == "lookup":
             style_count["lookup"] = style_count.get("lookup", 0) + 1
             return lookup_name[j]
